@@ -256,3 +256,39 @@ def cube_stats(ex, models):
         'solver_queries': smt.STATS.queries,
         'solver_log': smt.STATS.log[-6:],
     }
+
+
+def replay_file(pid, path):
+    """./check <ID> --replay FILE: re-run the recorded script(s) of a violation on the current /repo build and compare with
+    what was observed when the violation was reported.  exit 1 = reproduces, 0 = no longer reproduces, 2 = cannot replay"""
+    d = json.load(open(path))
+    scripts = []
+    for k in ('script', 'script_original', 'script_restored'):
+        if isinstance(d.get(k), dict):
+            scripts.append((k, d[k]))
+    if not scripts:
+        print('[%s] replay: %s carries no native script (solver model only): %s' % (pid, path, json.dumps(d.get('model') or d.get('playback') or {})[:400]))
+        return 2
+    same = True
+    for k, sc in scripts:
+        nat = run_native(sc, cfg_hooks=(sc.get('kind') == 'concurrent'))
+        print('[%s] replay %s -> %s' % (pid, k, json.dumps(nat)[:1500]))
+        rec = d.get('native') if k == 'script' else d.get('native_' + k.split('_')[1])
+        if rec is None:
+            print('[%s] replay: the file carries no recorded outcome to compare with' % pid)
+            return 2
+        if rec is not None:
+            if k != 'script':
+                res = nat.get('results') or []
+                last = res[-1] if res else {}
+                got = [{'maker': t['maker'], 'quantity': t['quantity']} for t in (last.get('match') or {}).get('transactions', [])]
+                same = same and (got == rec)
+            else:
+                same = same and (json.dumps(nat, sort_keys=True) == json.dumps(rec, sort_keys=True))
+    what = d.get('obligation') or d.get('rule') or ''
+    if same:
+        print('[%s] REPRODUCED: %s | %s' % (pid, what, (d.get('history') or d.get('schedule') or d.get('case') or d.get('call') or '')[:300]))
+        print('VIOLATION property=%s replay=%s' % (pid, path))
+        return 1
+    print('[%s] the recorded outcome does not reproduce on the current tree (%s)' % (pid, what))
+    return 0
